@@ -1,8 +1,10 @@
 CONSTANTS Procs <- EnvProcs SameText <- EnvSameText InitModels <- EnvModels InitMeta <- EnvMeta InitRows <- EnvRows
   TouchOnHit <- EnvTouch SharedInited <- EnvShared DeferredSchemaTxn <- EnvDeferred
+  LockedCountsAsCorrupt <- EnvLockedCorrupt AllowTimeout <- EnvTimeout
 INIT Init
 NEXT Next
 VIEW View
 INVARIANT NoDbError
+INVARIANT NoRemoveWhileInUse
 INVARIANT AtMostOneWriter
 INVARIANT DbIntactAtEnd
